@@ -8,6 +8,7 @@ import (
 	"os"
 	"os/exec"
 	"path/filepath"
+	"runtime"
 	"strings"
 	"sync"
 	"time"
@@ -29,6 +30,19 @@ var solvers = []solverSpec{
 		// low eager threshold: instances of deep generations are delayed, which tames matching loops
 		return []string{fmt.Sprintf("-T:%d", s), "smt.auto_config=false", "smt.mbqi=false", "smt.qi.eager_threshold=2", f}
 	}},
+	// further E-matching configurations for the stage-2 race: quantified obligations whose hypotheses
+	// form a matching loop (two mutually inverse forall-exists facts, say) are decided by generation-
+	// limited E-matching only, and how quickly depends on threshold and seed; a wider portfolio makes
+	// the outcome independent of one configuration's luck
+	{name: "z3-new/ematch-shallow3", bin: "z3-new", args: func(f string, s int) []string {
+		return []string{fmt.Sprintf("-T:%d", s), "smt.auto_config=false", "smt.mbqi=false", "smt.qi.eager_threshold=3", f}
+	}},
+	{name: "z3-new/ematch-shallow1", bin: "z3-new", args: func(f string, s int) []string {
+		return []string{fmt.Sprintf("-T:%d", s), "smt.auto_config=false", "smt.mbqi=false", "smt.qi.eager_threshold=1", f}
+	}},
+	{name: "z3-new/ematch-shallow/seed1", bin: "z3-new", args: func(f string, s int) []string {
+		return []string{fmt.Sprintf("-T:%d", s), "smt.auto_config=false", "smt.mbqi=false", "smt.qi.eager_threshold=2", "smt.random_seed=1", f}
+	}},
 	{name: "cvc5", bin: "cvc5", args: func(f string, s int) []string {
 		return []string{fmt.Sprintf("--tlimit=%d", s*1000), "--full-saturate-quant", f}
 	}},
@@ -42,9 +56,20 @@ type solveCfg struct {
 	confirm   bool // require a second solver to agree on unsat (thorough)
 	keepFiles bool
 	raw       bool // hand-written query: race the plain solvers only
+	idle      bool // idle retry: straight to the full race, no reduced-hypothesis retries
 }
 
+// procSem bounds the number of solver processes of this check to the number of cores, so that a
+// solver's time limit measures solving and not waiting for a core.
+var procSem = make(chan struct{}, runtime.NumCPU())
+
 func runSolver(ctx context.Context, sp solverSpec, file string, secs int) (string, string, float64) {
+	select {
+	case procSem <- struct{}{}:
+		defer func() { <-procSem }()
+	case <-ctx.Done():
+		return "unknown", "", 0
+	}
 	t0 := time.Now()
 	cctx, cancel := context.WithTimeout(ctx, time.Duration(secs+2)*time.Second)
 	defer cancel()
@@ -158,15 +183,53 @@ func (x *Exec) solveAll(cfg solveCfg) {
 		}(j)
 	}
 	wg.Wait()
+	// Obligations nobody decided (timeout / unknown, never a definite "sat") are tried once more when
+	// the machine is idle, a few at a time and with twice the budget: a timeout under the load of
+	// the parallel phase is not evidence about the code.
+	var retry []*job
+	for _, j := range jobs {
+		o := j.obls[0]
+		if o.Cover || o.MaxSec > 0 || o.Result == "unsat" || o.Result == "sat" {
+			continue
+		}
+		retry = append(retry, j)
+	}
+	if len(retry) > 0 {
+		sem2 := make(chan struct{}, 3)
+		var wg2 sync.WaitGroup
+		for _, j := range retry {
+			wg2.Add(1)
+			sem2 <- struct{}{}
+			go func(j *job) {
+				defer wg2.Done()
+				defer func() { <-sem2 }()
+				jcfg := cfg
+				jcfg.fullSecs = cfg.fullSecs * 2
+				jcfg.idle = true
+				res, solver, secs, out := solveOne(j.file, jcfg, false)
+				if res == "unsat" || res == "sat" {
+					solver += " (idle retry)"
+				}
+				for _, o := range j.obls {
+					prev := o.Secs
+					o.Result, o.Solver, o.Secs = res, solver, prev+secs
+					o.Model = ""
+					if res != "unsat" {
+						o.Model = out
+					}
+				}
+				if !cfg.keepFiles && res == "unsat" {
+					os.Remove(j.file)
+				}
+			}(j)
+		}
+		wg2.Wait()
+	}
 }
 
 // solveOne: stage 1 z3-new with a short limit; stage 2 all solvers raced.
 func solveOne(file string, cfg solveCfg, cover bool) (res, solver string, secs float64, out string) {
 	t0 := time.Now()
-	want := "unsat"
-	if cover {
-		want = "sat"
-	}
 	if cfg.raw {
 		ctx, cancel := context.WithCancel(context.Background())
 		defer cancel()
@@ -189,27 +252,27 @@ func solveOne(file string, cfg solveCfg, cover bool) (res, solver string, secs f
 		}
 		return last.r, last.name, time.Since(t0).Seconds(), last.text
 	}
-	r, text, _ := runSolver(context.Background(), solvers[0], file, cfg.fastSecs)
-	if cover && r != "unsat" {
-		// vacuity guard: only a refutation of the precondition matters; "sat", "unknown" and a
-		// timeout all mean the solver could not show the precondition contradictory
-		return r, solvers[0].name, time.Since(t0).Seconds(), text
-	}
-	if r == want && !cfg.confirm {
-		return r, solvers[0].name, time.Since(t0).Seconds(), text
-	}
-	if r == "sat" || (cover && r == "unsat") {
-		// definite opposite answer
-		if !cfg.confirm {
+	var r, text string
+	if cfg.idle {
+		r = "unknown"
+	} else if !cfg.confirm && !cover {
+		// stage 1: default z3-new and shallow E-matching start together (between them they decide
+		// almost every query in a fraction of a second); if neither has answered after a moment,
+		// z3 4.8 and plain E-matching join the race. The first definite answer wins.
+		var nm string
+		r, nm, text = raceSolvers(file, []int{3, 0, 1, 2}, 1, cfg.fastSecs+2, 500*time.Millisecond)
+		if r == "unsat" || r == "sat" {
+			return r, nm, time.Since(t0).Seconds(), text
+		}
+	} else {
+		r, text, _ = runSolver(context.Background(), solvers[0], file, cfg.fastSecs)
+		if cover && r != "unsat" {
+			// vacuity guard: only a refutation of the precondition matters; "sat", "unknown" and a
+			// timeout all mean the solver could not show the precondition contradictory
 			return r, solvers[0].name, time.Since(t0).Seconds(), text
 		}
-	}
-	if !cfg.confirm && !cover {
-		// stage 1b: pure E-matching configuration, cheap and often decisive for quantified goals
-		for _, si := range []int{3, 2} {
-			if r2, text2, _ := runSolver(context.Background(), solvers[si], file, cfg.fastSecs+2); r2 == "unsat" || r2 == "sat" {
-				return r2, solvers[si].name, time.Since(t0).Seconds(), text2
-			}
+		if cover && r == "unsat" && !cfg.confirm {
+			return r, solvers[0].name, time.Since(t0).Seconds(), text
 		}
 	}
 	firstRes, firstSolver := r, solvers[0].name
@@ -252,7 +315,7 @@ func solveOne(file string, cfg solveCfg, cover bool) (res, solver string, secs f
 			best.text = a.text
 		}
 	}
-	if best.r != "unsat" && best.r != "sat" && !cover {
+	if best.r != "unsat" && best.r != "sat" && !cover && !cfg.idle {
 		// Dropping hypotheses is sound: retry with the forall-exists assumptions (which tend to
 		// cause matching loops) removed, then with exactly one of them kept.
 		if r, nm, text := solveReduced(file, cfg); r == "unsat" {
@@ -338,6 +401,37 @@ func solveReduced(file string, cfg solveCfg) (string, string, string) {
 			if r, text := try(t, fmt.Sprint(k+1)); r == "unsat" {
 				return r, "z3-new (reduced: one forall-exists hypothesis kept)", text
 			}
+		}
+	}
+	return "unknown", "", ""
+}
+
+// raceSolvers runs the given solver configurations concurrently on one query and returns the
+// first definite answer (unsat/sat), cancelling the others.
+// The first `eager` configurations start at once, the others after `delay`.
+func raceSolvers(file string, idx []int, eager, secs int, delay time.Duration) (string, string, string) {
+	ctx, cancel := context.WithCancel(context.Background())
+	defer cancel()
+	type ans struct{ r, text, name string }
+	ch := make(chan ans, len(idx))
+	for k, i := range idx {
+		go func(k int, sp solverSpec) {
+			if k >= eager && delay > 0 {
+				select {
+				case <-ctx.Done():
+					ch <- ans{"unknown", "", sp.name}
+					return
+				case <-time.After(delay):
+				}
+			}
+			r, text, _ := runSolver(ctx, sp, file, secs)
+			ch <- ans{r, text, sp.name}
+		}(k, solvers[i])
+	}
+	for range idx {
+		a := <-ch
+		if a.r == "unsat" || a.r == "sat" {
+			return a.r, a.name, a.text
 		}
 	}
 	return "unknown", "", ""
